@@ -1,0 +1,8 @@
+//go:build verif && !windows
+
+package util
+
+// Verification hook (build tag verif): the unexported fields of an Executor. No logic.
+
+// VerifParts returns the shell NewExecutor chose and the arguments it passes before the command.
+func (x *Executor) VerifParts() (string, []string) { return x.shell, x.args }
